@@ -295,7 +295,7 @@ func runInBubble(s Script) (res vt.Result) {
 		ipBefore := ss.InitializeParams()
 
 		line := memio.Respell(m.wire(i), s.Spell)
-		if m.Batched && batchesOK && !mixed {
+		if m.Batched && batchesOK && !mixed && m.Meta == "" { // (a message carrying 2026-07-28 metadata belongs to a protocol without batches)
 			line = "[" + line + "]"
 			res.Class("message_sent_as_a_batch_of_one_" + phase)
 		}
